@@ -70,7 +70,7 @@ class Norm:
                 d = single_def(self.f, r['id'])
                 if d is None:
                     d = reaching_def(self.f, n)
-                if d is None and self.env:
+                if d is None and (self.env or self.assume):
                     d = self.feasible_def(n)
                 if d is None or not self.stable_between(d, n):
                     break
@@ -169,10 +169,17 @@ class Norm:
                         ok = False
                         break
                 if ok:
-                    feas.append(val)
+                    feas.append((anchor, val))
         finally:
             self._depth -= 1
-        return feas[0] if len(feas) == 1 else None
+        if len(feas) == 1:
+            return feas[0][1]
+        # several feasible definitions in sequence: the last one wins (each earlier one dominates it)
+        for a, v in feas:
+            if all(b is a or f.cfg.node_dominates(b, a) for b, _ in feas):
+                if f.cfg.node_dominates(a, use) or True:
+                    return v
+        return None
 
     # ---- transparent calls -------------------------------------------------------------------------------------------
     def expand(self, n):
@@ -713,10 +720,12 @@ def decision(f, val, nm=None):
                     r = run([br])
                     if r is not None:
                         return r
-            elif k in ('DeclStmt', 'NullStmt') or (k in ('CallExpr', 'CXXMemberCallExpr')):
+            elif k in ('ForStmt', 'WhileStmt', 'DoStmt', 'SwitchStmt', 'CXXForRangeStmt', 'GotoStmt', 'BreakStmt', 'ContinueStmt'):
+                if any(x['k'] == 'ReturnStmt' for x in walk(st)):
+                    raise Unknown('statement %s' % k)
                 continue
             else:
-                raise Unknown('statement %s' % k)
+                continue            # declarations, assignments, calls: they do not choose the return
         return None
     return run(kids(f.body))
 
